@@ -1396,9 +1396,9 @@ def _array_rule(ctx):
             if tname == "BufferEmptyError":
                 return UNKNOWN
             return UNKNOWN
-        if isinstance(f, ast.Attribute) and f.attr in ("encode", "decode") and isinstance(f.value, ast.Attribute) and f.value.attr == "element_type":
-            et = it.ev(f.value, env)
-            if not isinstance(et, Obj):
+        if isinstance(f, ast.Attribute) and f.attr in ("encode", "decode"):
+            et = _receiver(call, env, it)  # (cls.element_type, a local alias of it, a parameter of a helper: whatever names the element type)
+            if not (isinstance(et, Obj) and et.__dict__.get("kind") in ("elem", "bits")):
                 return UNKNOWN
             a = it.ev(call.args[0], env)
             if f.attr == "encode":
@@ -2075,32 +2075,29 @@ def _socket_rule(ctx):
     rcv, snd = so.methods["receive"], so.methods["send"]
     hdr = lambda n: b"\x6f\x00" + n.to_bytes(2, "little") + bytes(range(20))  # noqa: E731
 
-    def run_receive(segments, fail_at=None):
+    def run_receive(segments, fail_at=None, fail_with="socket.timeout"):
         segs = [bytes(x) for x in segments]
         calls = []
 
-        def hook(call, env, it):
-            path = attr_path(call.func) or ""
-            if path == "self.sock.recv":
-                n = it.ev(call.args[0], env)
-                calls.append(n)
-                if fail_at is not None and len(calls) > fail_at:
-                    raise _Raise("socket.timeout")
-                if len(calls) > 200:
-                    raise _Raise("RuntimeError")  # (a loop that never completes: reported through the outcome)
-                if not isinstance(n, int) or n <= 0:
-                    raise _Raise("ValueError")
-                while segs and not segs[0]:
-                    segs.pop(0)
-                if not segs:
-                    return b""
-                out, segs[0] = segs[0][:n], segs[0][n:]
-                return out
-            if path in ("self.sock.settimeout", "self.sock.setsockopt"):
-                return None
-            return UNKNOWN
+        def os_recv(n, *flags):
+            calls.append(n)
+            if fail_at is not None and len(calls) > fail_at:
+                raise _Raise(fail_with)
+            if len(calls) > 200:
+                raise _Raise("RuntimeError")  # (a loop that never completes: reported through the outcome)
+            if not isinstance(n, int) or isinstance(n, bool) or n <= 0:
+                raise _Raise("ValueError")
+            while segs and not segs[0]:
+                segs.pop(0)
+            if not segs:
+                return b""
+            out, segs[0] = segs[0][:n], segs[0][n:]
+            return out
 
-        me = Obj(_ci=so, sock=Obj(kind="os-socket"))
+        hook = None
+        # (the OS socket is a witness object whose methods are witness callables: wherever the code calls them - in `receive`, in a
+        # helper method, in a module-level helper handed the socket - the call lands here)
+        me = Obj(_ci=so, sock=Obj(kind="os-socket", recv=PyFunc(os_recv, "recv"), settimeout=PyFunc(lambda *a: None, "settimeout"), setsockopt=PyFunc(lambda *a: None, "setsockopt")))
         env = {"self": me}
         for a_, d_ in zip([x.arg for x in rcv.args.args][-len(rcv.args.defaults):] if rcv.args.defaults else [], rcv.args.defaults):
             env[a_] = ctx.folder.eval(d_, so.module)
@@ -2142,9 +2139,10 @@ def _socket_rule(ctx):
             ctx.check(kind == "return" and isinstance(res, bytes) and res[:n] == frame and len(res) >= n, key, rcv, f"{flabel}: complete when its last byte has arrived", f"receive on {flabel} followed by another frame gives {kind} {res!r}"[:300])
     # the peer closes early / the socket fails
     cut = hdr(20) + bytes(20)
-    for label, segs, fail_at in (("peer closes inside the header", [cut[:10]], None), ("peer closes right after the header", [cut[:24]], None), ("peer closes inside the data", [cut[:30]], None), ("peer closes before the first byte", [], None),
-                                 ("the socket times out after the header", [cut[:24]], 1), ("the socket times out at once", [cut], 0)):
-        kind, res, left, calls = run_receive(segs, fail_at)
+    for label, segs, fail_at, fail_with in (("peer closes inside the header", [cut[:10]], None, None), ("peer closes right after the header", [cut[:24]], None, None), ("peer closes inside the data", [cut[:30]], None, None),
+                                            ("peer closes before the first byte", [], None, None), ("the socket times out after the header", [cut[:24]], 1, "socket.timeout"), ("the socket times out at once", [cut], 0, "socket.timeout"),
+                                            ("the connection is reset inside the header", [cut[:10]], 1, "ConnectionResetError"), ("an OS error inside the data", [cut[:30]], 1, "OSError")):
+        kind, res, left, calls = run_receive(segs, fail_at, fail_with or "socket.timeout")
         key = ckey(so.key + ".receive", f"witness:{label}")
         if kind == "unknown":
             ctx.undecided(key, rcv, f"receive not foldable ({label}): {res}")
@@ -2153,26 +2151,21 @@ def _socket_rule(ctx):
     # ---- send
     msg = bytes(range(200)) * 3
     for label, accepts, want in (("everything at once", [600], ("return", 600)), ("in three parts", [100, 250, 250], ("return", 600)), ("one byte at a time at first", [1, 1, 598], ("return", 600)), ("all but the last byte, then the last", [599, 1], ("return", 600)),
-                                 ("the OS accepts nothing", [100, 0], ("raise", "CommError")), ("the socket fails", [100, "fail"], ("raise", "CommError"))):
+                                 ("the OS accepts nothing", [100, 0], ("raise", "CommError")), ("the socket fails", [100, "fail"], ("raise", "CommError")), ("the socket fails at once", ["fail"], ("raise", "CommError")), ("the OS accepts nothing at once", [0], ("raise", "CommError"))):
         sent, script = [], list(accepts)
 
-        def hook(call, env, it, sent=sent, script=script):
-            path = attr_path(call.func) or ""
-            if path == "self.sock.send":
-                data = it.ev(call.args[0], env)
-                if len(sent) > 50:
-                    raise _Raise("RuntimeError")
-                k_ = script.pop(0) if script else len(data)
-                if k_ == "fail":
-                    raise _Raise("ConnectionResetError")
-                k_ = min(k_, len(data))
-                sent.append(bytes(data[:k_]))
-                return k_
-            if path in ("self.sock.settimeout",):
-                return None
-            return UNKNOWN
+        def os_send(data, *flags, sent=sent, script=script):
+            if len(sent) > 50:
+                raise _Raise("RuntimeError")
+            k_ = script.pop(0) if script else len(data)
+            if k_ == "fail":
+                raise _Raise("ConnectionResetError")
+            k_ = min(k_, len(data))
+            sent.append(bytes(data[:k_]))
+            return k_
 
-        env = {"self": Obj(_ci=so, sock=Obj(kind="os-socket")), snd.args.args[1].arg: msg}
+        hook = None
+        env = {"self": Obj(_ci=so, sock=Obj(kind="os-socket", send=PyFunc(os_send, "send"), settimeout=PyFunc(lambda *a: None, "settimeout"))), snd.args.args[1].arg: msg}
         for a_, d_ in zip([x.arg for x in snd.args.args][-len(snd.args.defaults):] if snd.args.defaults else [], snd.args.defaults):
             env.setdefault(a_, ctx.folder.eval(d_, so.module))
         kind, res = run_function(ctx, so.module, snd, env, call_hook=hook, deep=False)
